@@ -144,6 +144,15 @@ impl Node {
 	}
 }
 
+pub struct Plan {
+	pub parent: usize,
+	pub specs: Vec<TxSpec>,
+	pub neg: Neg,
+	pub spent_now: Vec<OutRef>,
+	pub recreated: bool,
+	pub cut_through: bool,
+}
+
 /// what the interpreter decided for one raw block
 pub struct Built {
 	pub block: Block,
@@ -244,9 +253,9 @@ impl World {
 		p
 	}
 
-	/// Interpret one raw block against the current world; does not add it.
-	/// `chain` is used to compute difficulty and roots (read-only extension).
-	pub fn build(&mut self, chain: &Chain, raw: &RawBlock, head: usize) -> Result<Built, String> {
+	/// Resolve the raw choices of one block into concrete transaction specs
+	/// against the model state of the chosen parent.
+	pub fn plan(&mut self, raw: &RawBlock, head: usize) -> Plan {
 		let parent = self.resolve_parent(raw, head);
 		let pnode = self.nodes[parent].clone();
 		let height = pnode.height() + 1;
@@ -525,6 +534,35 @@ impl World {
 			}
 		}
 
+		Plan {
+			parent,
+			specs,
+			neg,
+			spent_now,
+			recreated,
+			cut_through,
+		}
+	}
+
+	pub fn resolve_specs(&mut self, raw: &RawBlock, head: usize) -> Vec<TxSpec> {
+		let mut r = raw.clone();
+		r.neg = Neg::None;
+		self.plan(&r, head).specs
+	}
+
+	/// Interpret one raw block against the current world; does not add it.
+	/// `chain` is used to compute difficulty and roots (read-only extension).
+	pub fn build(&mut self, chain: &Chain, raw: &RawBlock, head: usize) -> Result<Built, String> {
+		let Plan {
+			parent,
+			specs,
+			neg,
+			spent_now,
+			recreated,
+			cut_through,
+		} = self.plan(raw, head);
+		let pnode = self.nodes[parent].clone();
+		let height = pnode.height() + 1;
 		for s in &specs {
 			for o in s.inputs.iter().chain(s.outputs.iter()) {
 				self.note(o);
